@@ -520,6 +520,10 @@ class LBFGSB:
             **self._non_empty_kwargs(),
         )
         model.update(np.arange(initial_model.ndims), final_vector)
+        if lbfgsb_info.get("warnflag") == 2:
+            # An abandoned line search: scipy goes back to its previous iterate but
+            # reports the value of the rejected trial point.
+            final_f = evaluate(model, data, mask, function_handle, None)
 
         lbfgsb_info["final_f"] = final_f
         lbfgsb_info["callback"] = vars(monitor)
